@@ -123,6 +123,7 @@ func InlineNewHelpers(pkgs []*packages.Package, round int) (map[string][]byte, [
 					continue
 				}
 				if !bodyInlinable(fd.Body, obj, pkg.TypesInfo) {
+					log = append(log, "not inlined: "+short+" (uses defer or recover, or is recursive)")
 					continue
 				}
 				c := &cand{body: fd.Body, sig: sig, obj: obj, file: f, short: short}
@@ -342,7 +343,7 @@ func readFileOverlay(pkg *packages.Package, fname string) ([]byte, error) {
 	return os.ReadFile(fname)
 }
 
-// bodyInlinable: no defer, no recover, no direct recursion, no goto; labels are renamed.
+// bodyInlinable: no defer, no recover, no direct recursion; labels (and the gotos, breaks and continues that name them) are renamed.
 func bodyInlinable(body *ast.BlockStmt, obj types.Object, info *types.Info) bool {
 	ok := true
 	var visit func(n ast.Node, inLit bool)
@@ -356,10 +357,6 @@ func bodyInlinable(body *ast.BlockStmt, obj types.Object, info *types.Info) bool
 				}
 			case *ast.DeferStmt:
 				if !inLit {
-					ok = false
-				}
-			case *ast.BranchStmt:
-				if x.Tok == token.GOTO {
 					ok = false
 				}
 			case *ast.Ident:
